@@ -284,7 +284,7 @@ PROPS = {
     "C21": {
         "level": "proof",
         "kani": ["apollo-compiler/validation.rs"],
-        "verus": ["linecol", "input_cycles", "fragment_cycles"],
+        "verus": ["linecol", "input_cycles", "fragment_cycles", "directive_cycles"],
         "technique": "Kani/CBMC, loop-free harness over all usize triples on the real recursion guard; Verus contracts on the extracted line / column lookup (unbounded)",
         "explanation": "KERNEL ONLY: the recursion guard every recursive validator uses: DepthGuard::increment errs iff value+1 > limit, tracks the high-water mark, "
                        "and dropping the guard restores the depth (all usize values). And the position lookup behind every rendered or serialized diagnostic (unit linecol, shared with C11): "
@@ -292,9 +292,10 @@ PROPS = {
                        "(a text that ends in a bare CR, an offset at or past the end). And the search for circular input-object references (unit input_cycles: FindRecursiveInputValue::{input_value_definition, input_object_definition, check}): "
                        "for every schema it never pushes a name that is already on the path (RecursionGuard::push's debug_assert: a panic in debug builds, unbounded recursion in release builds), and the mutual recursion terminates -- "
                        "its depth is bounded by the recursion limit, however the input objects refer to each other. The same for the search for self-spreading fragments (unit fragment_cycles: detect_fragment_cycles): no double push, and termination -- "
-                       "structurally through fields and inline fragments, by the path limit (100) through fragment spreads -- for every document.",
+                       "structurally through fields and inline fragments, by the path limit (100) through fragment spreads -- for every document. And for the search for self-referential directive definitions (unit directive_cycles: the seven mutually recursive functions of FindRecursiveDirective, two guards): "
+                       "no double push on either path, both paths restored; its termination is NOT proved (for built-in types the type path is not extended).",
         "not_decided": ["the main clause: no panic / stack overflow across build, validate, serialize, introspect, render for every input text",
-                        "RecursionGuard / RecursionStack themselves are a model in unit input_cycles (written from validation/mod.rs: path + limit; push fails beyond the limit; the guard's Drop pops): their bodies are not verified (a struct holding `&mut` plus Drop)", "the other users of RecursionGuard (directive / variable / type cycles) and that cycles are REPORTED exactly when they exist", "diagnostics sorted by position (std sort_by_key)"],
+                        "RecursionGuard / RecursionStack themselves are a model in unit input_cycles (written from validation/mod.rs: path + limit; push fails beyond the limit; the guard's Drop pops): their bodies are not verified (a struct holding `&mut` plus Drop)", "termination of the directive-cycle search; variable / other users of RecursionGuard and that cycles are REPORTED exactly when they exist", "diagnostics sorted by position (std sort_by_key)"],
     },
     "C23": {
         "level": "proof",
